@@ -89,3 +89,11 @@ Fixpoint first_word (s : string) : string :=
 Definition names_distinct (opts : list cli_option) : bool :=
   nodup (map (fun o => let '(k, _, use, _, _) := o in k ++ ":" ++ first_word use)
              (filter (fun o => let '(_, _, _, skip, _) := o in negb skip) opts)).
+
+(* what the node answers can be displayed: client/v2 renders answers with the amino JSON encoder of x/tx, whose
+   field encoder "legacy_coins" (x/tx/signing/aminojson: nullSliceAsEmptyEncoder) accepts a LIST of Coin only and
+   fails with "unsupported type" on a single Coin; an (amino.encoding) option this model does not know is refused *)
+Definition encoding_ok (e : string * string * bool * string) : bool :=
+  let '(_, enc, repeated, ty) := e in
+  if String.eqb enc "legacy_coins" then repeated && String.eqb ty "cosmos.base.v1beta1.Coin"
+  else String.eqb enc "".
